@@ -1641,6 +1641,7 @@ func UnrollStepTables(pkgs []*packages.Package, read func(string) ([]byte, error
 					// the table: a literal, or a local defined once by a literal and never touched
 					var lit *ast.CompositeLit
 					var tableID *ast.Ident
+					var tableDef *ast.AssignStmt // `table := literal` with nothing else on either side
 					switch x := rs.X.(type) {
 					case *ast.CompositeLit:
 						lit = x
@@ -1661,6 +1662,9 @@ func UnrollStepTables(pkgs []*packages.Package, read func(string) ([]byte, error
 										if len(z.Lhs) == len(z.Rhs) {
 											if cl, ok := z.Rhs[i].(*ast.CompositeLit); ok && z.Tok == token.DEFINE {
 												lit = cl
+												if len(z.Lhs) == 1 {
+													tableDef = z
+												}
 											}
 										}
 									}
@@ -1844,7 +1848,7 @@ func UnrollStepTables(pkgs []*packages.Package, read func(string) ([]byte, error
 					sort.Slice(uses, func(i, j int) bool { return uses[i].start < uses[j].start })
 					var sb strings.Builder
 					sb.WriteString("{\n")
-					if tableID != nil {
+					if tableID != nil && tableDef == nil {
 						sb.WriteString("_ = " + tableID.Name + "\n")
 					}
 					for _, m := range entries {
@@ -1881,6 +1885,13 @@ func UnrollStepTables(pkgs []*packages.Package, read func(string) ([]byte, error
 					endLine := p.Fset.Position(rs.End()).Line
 					sb.WriteString(fmt.Sprintf("}\n//line %s:%d\n", fname, endLine))
 					edits = append(edits, edit{off(rs.Pos()), off(rs.End()), sb.String()})
+					if tableID != nil && tableDef != nil {
+						// the table itself is dropped (its entries are pure; its closures would
+						// otherwise stay behind as functions that nothing calls): blank lines keep
+						// the positions of what follows
+						nl := strings.Count(string(src[off(tableDef.Pos()):off(tableDef.End())]), "\n")
+						edits = append(edits, edit{off(tableDef.Pos()), off(tableDef.End()), strings.Repeat("\n", nl)})
+					}
 					notes = append(notes, fmt.Sprintf("loop over a table of %d steps at %s analysed unrolled", len(entries), shortPos(p.Fset.Position(rs.Pos()))))
 					return false
 				})
